@@ -48,7 +48,8 @@ THEOREMS = {
             ("isAsciiDomain_ok", "isIpv4_ok", "isIpv6_ok", "checkIp_ok", "isSpecialDomain_ok", "checkTld_ok", "isUtf8Domain_ok", "isEmail_ok", "step_isEmail_ok")] +
            [("Eav.Props.C13", "Eav.Props.C13." + n) for n in ("run_inv", "free_releases", "lifecycle_releases")] +
            [("Eav.Props.C16", "Eav.Props.C16.no_abort"), ("Eav.Props.C09", "Eav.Props.C09.copyLabel_take"), ("Eav.Props.C15", "Eav.Props.C15.errcode_lt_max")] +
-           [("Eav.Props.C06Cost", "Eav.Props.C06.Cost." + n) for n in ("isIpv4_linear", "isIpv6_linear", "specialTicks_linear", "tldTicks_le", "table_weight", "isTld_const")],
+           [("Eav.Props.C06Cost", "Eav.Props.C06.Cost." + n) for n in ("isIpv4_linear", "isIpv6_linear", "specialTicks_linear", "tldTicks_le", "table_weight", "isTld_const")] +
+           [("Eav.Props.C06CostEmail", "Eav.Props.C06.Cost." + n) for n in ("isAsciiDomainT_fst", "isAsciiDomainT_le", "checkTldTicks_le", "checkIpTicks_le", "hostTicks_le", "emailTicks_linear")],
     "C07": _gt("errEnum_eq", "tldTypeEnum_eq") + [("Eav.Props.C07", "Eav.Props.C07." + n) for n in
             ("tldScan_eq_lookup", "isTld_eq_lookup", "whole_label", "case_insensitive", "isTld_eq_csv")] +
            [("Eav.Props.C07Api", "Eav.Props.C07." + n) for n in ("classified_by_last_label", "class_ignores_prefix", "single_label_not_fqdn", "api_record_any_mask")] +
@@ -371,7 +372,7 @@ VARIANTS_OF = {
     "C09": {"quick": ["default", "ndebug", "underscore"], "thorough": ["default", "ndebug", "underscore"]},
     "C13": {"quick": ["default", "be:idnkit", "be:idnkit+extra"], "thorough": ["default", "be:idnkit", "be:idn", "be:idnkit+extra", "be:idn+extra", "extra"]},
     "C15": {"quick": ["default", "be:idn"], "thorough": ["default", "be:idn", "be:idnkit"]},
-    "C07": {"quick": ["default", "underscore", "be:idn"], "thorough": ["default", "underscore", "be:idn", "be:idnkit"]},
+    "C07": {"quick": ["default", "underscore", "be:idn", "uchar"], "thorough": ["default", "underscore", "be:idn", "be:idnkit", "uchar"]},
     "C16": {"quick": ["default", "extra", "be:idnkit+extra"], "thorough": ["default", "extra", "be:idnkit+extra", "be:idn+extra"]},
     "C17": {"quick": ["default", "rfc20", "rfc5322", "underscore", "rebuilt", "rfc5322+uchar", "rfc20+rfc5322+underscore@readme"],
             "thorough": ["default", "rfc20", "rfc5322", "underscore", "rfc20+rfc5322", "rfc20+underscore", "rfc5322+underscore", "all3", "rebuilt", "rfc5322+uchar",
@@ -939,6 +940,27 @@ def c07(ctx):
     for d, cl, sl in zip(lu, cl_, lus):
         if fields(cl)[1] != "-2" and fields(cl)[1] != sl.split(" ")[1]:
             ctx.S("a long internationalised host name is not classified by its last label", op="E 6531 1 %s" % hx(b"a@" + d), impl=cl, table=sl)
+    # plain `char` unsigned (arm / ppc / s390): every internationalised TLD of the table through its U-label, and U-label hosts on ASCII TLDs
+    if "uchar" in ctx.drives:
+        ut = []
+        for name in names:
+            if name.startswith(b"xn--"):
+                try:
+                    ut.append(("\u043f\u0440\u0438\u043c\u0435\u0440." + name[4:].decode("ascii").encode("ascii").decode("punycode")).encode())
+                except Exception:
+                    pass
+        ut = ut[:: (3 if ctx.tier == "quick" else 1)] + ["\u043f\u043e\u0447\u0442\u0430.\u0440\u0444".encode(), "example-shop.\u0440\u0444".encode(), "bank.verm\u00f6gensberatung".encode(), "\u5728\u7ebf.\u5728\u7ebf".encode(),
+                                                     "b\u00fccher.de".encode(), "\u043f\u043e\u0447\u0442\u0430.com".encode(), "b\u00fccher.museum".encode(), "b\u00fccher.zz".encode()]
+        def lastA(d):
+            lab = d.decode().rsplit(".", 1)[-1]
+            return lab.encode() if all(ord(ch) < 128 for ch in lab) else b"xn--" + lab.encode("punycode")
+        uts = ctx.spec(["sT %s" % hx(lastA(d)) for d in ut])
+        cu8 = ctx.K("tld-ulabel-uchar", "uchar", ["E 6531 1 %s" % hx(b"a@" + d) for d in ut], nontrivial=lambda op, ln: True)
+        for d, cl, sl in zip(ut, cu8, uts):
+            f = fields(cl)
+            if "FAULT" not in cl and f[1] != "-2" and f[1] != sl.split(" ")[1]:
+                ctx.S("built with unsigned plain char (-funsigned-char), mode 6531 does not classify an internationalised domain by the A-label of its last label",
+                      op="E 6531 1 %s" % hx(b"a@" + d), variant="uchar", domain=d.decode(), impl=cl, table=sl)
     # IDNA's other label separators (ideographic / fullwidth / halfwidth full stop) as the ONLY separators: the IDN library maps them to '.',
     # and the A-form it returns is what is classified (a domain that reaches the converter is never judged on the dots of its U-form)
     idot = []
@@ -1129,6 +1151,19 @@ def c09(ctx):
         for d, cl, sp_, ho in zip(nd, cn, spn, hon):
             if ho == "sD 1" and not d.endswith(b".") and (cl == "S 1") != (sp_ == "sS 1"):
                 ctx.S("in a build with -DNDEBUG a domain is classified special / not special against the reserved-name rules", op="S %s" % hx(d), variant="ndebug", impl=cl, spec=sp_)
+    # (added) the same domain validated twice in a row with TLD checking toggled in between (and the other way round), one object and two:
+    # 'special' comes out exactly when TLD checking is on for THAT call
+    hs = []
+    for m in MODES:
+        for d_ in (b"mail.example.com", b"hidden.service.onion", b"localhost", b"x.test", b"b.com", b"mail.nosuchtld", "\u043f\u043e\u0447\u0442\u0430.example.org".encode()):
+            a1, a2 = hx(b"alice@" + d_), hx(b"bob@" + d_)
+            hs += ["i;r%d;t0;s;e%s;t1;e%s;t0;e%s;f" % (m, a1, a2, a1), "i;r%d;t1;s;e%s;t0;e%s;t1;e%s;f" % (m, a1, a2, a2), "i;r%d;t0;s;e%s;t1;s;e%s;f" % (m, a1, a1)]
+    check_histories(ctx, "tld-toggled", hs)
+    two = []
+    for d_ in (b"mail.example.com", b"x.onion", b"b.com", b"mail.nosuchtld"):
+        a1 = hx(b"alice@" + d_)
+        two += ["i;2i;t0;2t1;s;2s;e%s;2e%s;e%s;2e%s;f;2f" % (a1, a1, a1, a1), "i;2i;t1;2t0;k248;s;2s;e%s;2e%s;2e%s;e%s;f;2f" % (a1, a1, a1, a1)]
+    check_two_objects(ctx, "tld-toggled-two-objects", two)
     # (added) a LABELS_ALLOW_UNDERSCORE build: '_' may occur in the labels further left; the reserved names are the same (direct calls and whole
     # addresses, all four modes)
     if "underscore" in ctx.drives:
@@ -1856,6 +1891,16 @@ def c17(ctx):
                     ctx.S("a default build made after an option build (make clean in between) does not behave as the default build", op="%s ... %s" % (str(key), hx(src[i])), variant="rebuilt",
                           default=a, rebuilt=b)
                     break
+    # an option build made where plain `char` is unsigned decides what the same option build decides where it is signed
+    if "rfc5322+uchar" in res and "rfc5322" in res:
+        for key, lines in res["rfc5322+uchar"].items():
+            src = locs if key[0] == "L" else doms if key == "D" else mails
+            for i, (a, b) in enumerate(zip(res["rfc5322"][key], lines)):
+                if a != b:
+                    opx = ("L %d %s %s" % (key[1], hx(src[i]), hx(gen.AT))) if key[0] == "L" else ("D %s 00" % hx(src[i])) if key == "D" else ("E %d %d %s" % (key[1], key[2], hx(src[i])))
+                    ctx.S("the RFC6531_FOLLOW_RFC5322 build decides differently when plain char is unsigned (-funsigned-char): which addresses an option changes must not depend on the ABI",
+                          op=opx, variant="rfc5322+uchar", signed_char=a, unsigned_char=b)
+                    break
     variants = [v for v in variants if v != "rebuilt"]
     sp_us = ctx.spec(["sD 1 %s" % hx(d) for d in doms])
     sp_u8 = ctx.spec(["sU %s" % hx(l) for l in locs])
@@ -2173,6 +2218,15 @@ def c10(ctx):
                 ctx.S("mode 6531 rejects an all-ASCII domain the ASCII modes accept, and not with an IDN error", op="E 6531 %d %s" % (t, hx(b"a@" + d)), m6531=a6, m5321=a5)
         stats["asked-directly-converted"] = len(direct)
         ctx.extra_cov.setdefault("idn_oracle", {}).update({"tld=%d %s" % (t, k): v for k, v in stats.items()})
+    # one eav_t set up for 6531, then given an unknown rfc value (setup refused), then set up for 6531 again - and the other orders: the U-label and
+    # the A-label spelling of a domain are still treated as a fresh object treats them
+    hs = []
+    pair = [hx("user@\u043f\u0440\u0438\u043c\u0435\u0440.\u0440\u0444".encode()), hx(b"user@xn--e1afmkfd.xn--p1ai"), hx("user@b\u00fccher.de".encode()), hx(b"user@xn--bcher-kva.de"), hx(b"user@iana.org")]
+    ads = ";".join("e" + a_ for a_ in pair)
+    for t_ in (0, 1):
+        hs += ["i;t%d;r6531;s;%s;r9;s;r6531;s;%s;f" % (t_, ads, ads), "i;t%d;r9;s;r6531;s;%s;f" % (t_, ads), "i;t%d;r6531;s;r9;s;r9;s;r6531;s;%s;r5321;s;r6531;s;%s;f" % (t_, ads, ads),
+               "i;t%d;r6531;s;s;s;%s;r6531;s;%s;f" % (t_, ads, ads), "i;t%d;r5321;s;%s;r9;s;r6531;s;%s;f" % (t_, ads, ads)]
+    check_histories(ctx, "setup-histories", hs)
 RULES["C10"] = "distinct domains: every IDN TLD of the table in U- and A-form, 1-4 labels from eight scripts, malformed UTF-8 / disallowed code points / hyphen violations / long labels, all-ASCII domains of the C04/C07 generators; the A-label is the one libidn2 produced on this run"
 TRUSTED_EXTRA["C10"] = ["libidn2's IDNA2008 conformance is an oracle: hypotheses H_same (conversion is idempotent on A-labels) and H_ascii (ASCII domains convert to their lower-case form) are validated on every recorded conversion, not proved"]
 
@@ -2415,9 +2469,15 @@ def c06(ctx):
             "ipv4-zeros-direct": lambda n: ["4 %s 00" % hx(b"0." * (n // 2) + b"0")], "ipv4-ones-direct": lambda n: ["4 %s 00" % hx(b"1." * (n // 2) + b"1")],
             "ipv4-zerodigits-direct": lambda n: ["4 %s 00" % hx(b"0.0.0." + b"0" * n)], "ipaddr-zeros-direct": lambda n: ["A %s 00" % hx(b"0." * (n // 2) + b"0")],
             "ipv6-zeros-direct": lambda n: ["6 %s 00" % hx(b"::0.0" + b".0" * (n // 2))], "tld-direct": lambda n: ["T %s" % hx(b"c" * n)],
-            "special-direct": lambda n: ["S %s" % hx(b"a." * (n // 2) + b"example.com")], "domain-direct": lambda n: ["D %s 00" % hx(b"a-b." * (n // 4) + b"com")]}
+            "special-direct": lambda n: ["S %s" % hx(b"a." * (n // 2) + b"example.com")], "domain-direct": lambda n: ["D %s 00" % hx(b"a-b." * (n // 4) + b"com")],
+            # whole is_5321_email calls, measured against the composed counter `emailTicks` (Eav/CostEmail.lean, proved linear in C06CostEmail.lean)
+            "email5321-long-domain": lambda n: ["E 5321 1 %s" % hx(b"a@" + b"a-b." * (n // 4) + b"com")], "email5321-many-at": lambda n: ["E 5321 1 %s" % hx(b"a@" * (n // 2) + b"b.com")],
+            "email5321-literal6": lambda n: ["E 5321 1 %s" % hx(b"a@[IPv6:1::" + b"0:" * (n // 2) + b"1]")], "email5321-literal4": lambda n: ["E 5321 1 %s" % hx(b"a@[0.0.0" + b".0" * (n // 2) + b"]")],
+            "email5321-long-local": lambda n: ["E 5321 1 %s" % hx(b"a" * n + b"@b.com")], "email5321-host253": lambda n: ["E 5321 1 %s" % hx(b"ab@" + b".".join([b"x"] * 126) + b".zz")]}
     toggles = {"ipv4-zeros-direct": "is_ipv4", "ipv4-ones-direct": "is_ipv4", "ipv4-zerodigits-direct": "is_ipv4", "ipaddr-zeros-direct": "is_ipaddr", "ipv6-zeros-direct": "is_ipv6",
-               "tld-direct": "is_tld", "special-direct": "is_special_domain", "domain-direct": "is_ascii_domain"}
+               "tld-direct": "is_tld", "special-direct": "is_special_domain", "domain-direct": "is_ascii_domain",
+               "email5321-long-domain": "is_5321_email", "email5321-many-at": "is_5321_email", "email5321-literal6": "is_5321_email", "email5321-literal4": "is_5321_email",
+               "email5321-long-local": "is_5321_email", "email5321-host253": "is_5321_email"}
     lin = {}
     for fam, mk in fams.items():
         counts = []
@@ -2440,7 +2500,7 @@ def c06(ctx):
         lin[fam] = counts
         # the model's own byte counts (Eav/Cost.lean, proved linear in C06Cost.lean) against the measurement: the compiled code must not do
         # more work per byte the model says it examines than a generous constant allows
-        if fam in toggles and toggles[fam] in ("is_ipv4", "is_ipv6", "is_tld", "is_special_domain"):
+        if fam in toggles and toggles[fam] in ("is_ipv4", "is_ipv6", "is_tld", "is_special_domain", "is_5321_email"):
             cops = ["c" + o for n in sizes for o in mk(n)]
             ticks = [int(x.split(" ")[1]) for x in ctx.spec(cops)]
             ctx.extra_cov.setdefault("model_ticks_per_family", {})[fam] = dict(zip(map(str, sizes), ticks))
@@ -2570,6 +2630,13 @@ def cli_main_compare(ctx, exe, env, runs):
             model_out += bytes.fromhex(h) if h != "-" else b""
             model_counts.append((int(np_), int(nf)))
         model_out = re.sub(rb"<<idn:(-?\d+)>>", lambda m: idn2_strerror(int(m.group(1))).encode(), model_out)
+        heads = lambda out_: [ln[:6] for ln in out_.split(b"\n") if ln[:6] in (b"PASS: ", b"FAIL: ")]
+        if heads(model_out) != heads(so):
+            hm, hs_ = heads(model_out), heads(so)
+            k = next((i for i, (a_, b_) in enumerate(zip(hm, hs_)) if a_ != b_), min(len(hm), len(hs_)))
+            ctx.S("verdict %d printed by the tool is not the library's decision for that line alone (fresh object, default settings), or the number of verdicts differs" % (k + 1),
+                  op=op, printed=repr(hs_[k:k + 1]), library=repr(hm[k:k + 1]), verdicts_printed=len(hs_), lines_validated=len(hm))
+            continue
         if model_out != so:
             k = next((i for i, (a_, b_) in enumerate(zip(model_out, so)) if a_ != b_), min(len(model_out), len(so)))
             mismatch("stdout differs at byte %d: %r" % (k, so[max(0, k - 40):k + 60]), "%r" % model_out[max(0, k - 40):k + 60]); continue
